@@ -174,6 +174,7 @@ package memmetrics
 //@ type RollingHDRHistogram
 //@   extsync
 //@   mutators Append Reset rotate getHist RecordLatencies RecordValues
+//@   readers Merged Export
 
 //@ type HDRHistogram
 //@   extsync
